@@ -41,6 +41,10 @@ def generate(rng, tier, idx):
     w['apdep'] = w['n_ap'] > 1 and rng.random() < 0.7
     w['has_ap'] = True if w['n_ap'] > 1 else rng.random() < 0.5
     w['ext_n'] = 40
+    if rng.random() < 0.02:
+        # finely sampled SEDs: more wavelengths than any plausible internal block size
+        w['n_wav'] = rng.choice([1030, 2100, 4200])
+        w['n_models'] = min(w['n_models'], 3)
     if w['n_models'] > 1 and rng.random() < 0.15:
         w['mixed'] = rng.randrange(w['n_models'])
     formats = [1] if w['mixed'] is not None else [1, 2]
